@@ -202,6 +202,10 @@ def lmCall (pr : Prob P D α) (reject : Nat) (o : Opt P S α) (e : Env P D S α)
 def lmRun (pr : Prob P D α) (reject : Nat) (o : Opt P S α) (es : List (Env P D S α)) : Opt P S α :=
   es.foldl (lmCall pr reject) o
 
+/-- a history in which the caller also changes `optimizer.reject` between calls (public attribute) -/
+def lmRunV (pr : Prob P D α) (o : Opt P S α) (es : List (Nat × Env P D S α)) : Opt P S α :=
+  es.foldl (fun o re => lmCall pr re.1 o re.2) o
+
 /-! ## Gauss-Newton -/
 
 structure GNOpt (P α : Type) where
